@@ -48,6 +48,14 @@ def generate(rng, tier):
             t2 = rng.choice(frags)
             yield ("runs", [[t1, list(a)], [t2, list(a)]])
             yield ("runs", [[t1, list(a)], [t2, list(a)], [t1 + t2, list(a)]])
+    for text, args in (("1m", ["red"]), ("31", ["red"]), ("[3", ["red"]), ("4m", ["underline"]), ("34m", ["blue"]),
+                       ("1m", ["bold"]), ("[4", ["on_blue"]), ("0m", ["bold", "red"])):
+        leaf = ["leaf", text, args, {}]
+        seen = ["obs", leaf, ["str"]]
+        for a, b in ((0, 1), (1, 2), (1, 3), (0, 2)):
+            yield ("expr", ["slice", seen, a, b])
+            yield ("expr", ["add", ["slice", seen, a, b], ["obs", ["slice", leaf, a, b], ["str", "hash"]]])
+        yield ("expr", ["add", seen, ["slice", ["mul", seen, 2], 1, 3]])
     n = 6000 if tier == "thorough" else 800
     for _ in range(n):
         if rng.random() < 0.7:
